@@ -75,6 +75,7 @@ def main() -> None:
         d = os.path.join(ROOT, "seeded", sid)
         meta = json.load(open(os.path.join(d, "meta.json")))
         pid = meta.get("verif", {}).get("check") or sid.split("-")[0]
+        head = sh("git -C /repo rev-parse --short HEAD")[1].strip()
         rec: dict = {"repo_head": head, "check": pid, "tier": tier, "date": time.strftime("%Y-%m-%d")}
         base = find_base(f"{d}/patch.diff")
         if base is None:
